@@ -6,7 +6,7 @@ from .. import core, graphcheck, inputs
 
 def run(chk):
     quick = chk.tier == "quick"
-    items = inputs.corpus_items() + inputs.script_items(chk, 1500 if quick else 20000, chk.seed)
+    items = inputs.corpus_items() + inputs.script_items(chk, 1500 if quick else 20000, chk.seed) + inputs.col_items(chk, 500 if quick else 8000, chk.seed + 4)
     traces, meta, verdicts, cfg = graphcheck.run(chk, "C06", items)
     # binding self-test: corrupt an accepted result (cut a path to one node; re-own a path end) and require rejection
     ok = [traces[i] for i, v in verdicts.items() if v[1] == "ok" and traces[i]["paths"]]
